@@ -107,3 +107,14 @@ func (this *Hnsw) VerifConfig() (m, mMax, mMax0, ef, efConstruction int, heurist
 func VerifVertexBytes(vector math.Vector, metadata Metadata) uint64 {
 	return newHnswVertex(uuid.Nil, vector, metadata, 0).bytesSize()
 }
+
+// VerifPause, when set, is called at named pause points of the production code
+// ("remove:tombstoned": Remove has erased and tombstoned the vertex and is about to hand over
+// the entry point and unlink it).
+var VerifPause func(point string)
+
+func verifPause(point string) {
+	if f := VerifPause; f != nil {
+		f(point)
+	}
+}
